@@ -54,7 +54,7 @@ def group_shapes(pats):
                 shapes[name] = ("choice", ["z", "Z"])
             elif body == r"\.[0-9]+":
                 shapes[name] = ("frac",)
-            elif body == "[a-zA-Z_/]+":
+            elif re.match(r"^\[[^\]]+\]\+$", body):
                 shapes[name] = ("name",)
             else:
                 raise MirUnsupported("regex group %s has an unmodelled body %r" % (name, body))
@@ -303,6 +303,77 @@ def replay_date_time(i, rb):
 # ----------------------------------------------------------------------------- obligations
 
 
+def zone_database_job(check, mirror, rb, pats):
+    """Named zones: the literal pattern must admit every identifier of the zone database the build links (chrono-tz's tz files). One z3 query over the
+    regular-expression theory: is there an identifier of the database that the character class of the `zone` group rejects?"""
+    import glob
+    import time as _t
+    t0 = _t.time()
+    oid = "C14/M/zone_literal/database_names"
+    m = re.search(r"\(\?P<zone>\[([^\]]+)\]\+\)", pats.get("ZONE_PATTERN", ""))
+    lock = mirror.read("Cargo.lock")
+    ver = re.search(r'name = "chrono-tz"\nversion = "([^"]+)"', lock)
+    files = []
+    if ver:
+        for d in glob.glob(os.path.expanduser("~/.cargo/registry/src/*/chrono-tz-%s/tz" % ver.group(1))):
+            files = [os.path.join(d, f) for f in ("africa", "antarctica", "asia", "australasia", "backward", "etcetera", "europe", "northamerica", "southamerica")]
+    names = set()
+    for f in files:
+        if os.path.exists(f):
+            for line in open(f, encoding="utf-8", errors="replace"):
+                w = line.split()
+                if len(w) >= 2 and w[0] == "Zone":
+                    names.add(w[1])
+                elif len(w) >= 3 and w[0] == "Link":
+                    names.add(w[2])
+    if not m or len(names) < 100:
+        check.add(oid, "inconclusive", "M", 0, dict(note="zone group or zone database not found", pattern=pats.get("ZONE_PATTERN"), names=len(names)))
+        return
+    cls, parts, i = m.group(1), [], 0
+    while i < len(cls):
+        if i + 2 < len(cls) and cls[i + 1] == "-":
+            parts.append(z3.Range(cls[i], cls[i + 2]))
+            i += 3
+        else:
+            parts.append(z3.Re(cls[i + 1] if cls[i] == "\\" and i + 1 < len(cls) else cls[i]))
+            i += 2 if cls[i] == "\\" else 1
+    admitted = z3.Plus(z3.Union(*parts) if len(parts) > 1 else parts[0])
+    zone = z3.String("zone")
+    so = z3.Solver()
+    so.set("timeout", 60000)
+    so.add(z3.Or([zone == z3.StringVal(n) for n in sorted(names)]), z3.Not(z3.InRe(zone, admitted)))
+    wit, r = [], so.check()
+    while r == z3.sat and len(wit) < 3:
+        w = so.model().eval(zone).as_string()
+        wit.append(w)
+        so.add(zone != z3.StringVal(w))
+        r = so.check()
+    check.bounds.append("zone_literal/database_names: all %d identifiers (Zone and Link lines) of the tz files chrono-tz %s is built from" % (len(names), ver.group(1)))
+    check.functions.append(dict(fn="ZONE_PATTERN", file="feel/src/temporal/mod.rs", sha=text_hash(pats["ZONE_PATTERN"])))
+    detail = dict(queries=len(wit) + 1, zone_class=cls, database_names=len(names), solver_seconds=round(_t.time() - t0, 3))
+    if not wit and r == z3.unsat:
+        check.add(oid, "holds", "M", _t.time() - t0, detail, queries=1)
+        return
+    if not wit:
+        check.add(oid, "inconclusive", "M", _t.time() - t0, dict(detail, unknown=str(r)))
+        return
+    confirmed = []
+    for w in wit:
+        _, out, _ = replay_call(rb, ["feel", 'string(date and time("2021-06-01T12:00:00@%s"))' % w])
+        check.replays += 1
+        okv = out.startswith('VALUE "2021-06-01T12:00:00@')
+        if not okv:
+            confirmed.append((w, out[:80]))
+    detail["counterexamples"] = [dict(label="an identifier of the zone database is no zone literal", inputs=dict(zone=w), reproduced=any(w == c[0] for c in confirmed)) for w in wit]
+    if confirmed:
+        check.add(oid, "violated", "M", _t.time() - t0, detail, queries=len(wit) + 1)
+        for w, out in confirmed:
+            check.violation(oid, dict(obligation="zone_literal/database_names", failed="every identifier of the zone database is accepted after @", inputs=dict(zone=w),
+                                      native='date and time("2021-06-01T12:00:00@%s") -> %s' % (w, out)))
+    else:
+        check.add(oid, "inconclusive", "M", _t.time() - t0, dict(detail, note2="solver counterexample not reproduced natively"))
+
+
 def run(check, mirror, tier):
     rb = replay_build(mirror)
     pats = read_patterns(mirror)
@@ -313,6 +384,7 @@ def run(check, mirror, tier):
             return
     shapes = group_shapes(pats)
     check.samples.append(dict(regex_group_shapes={k: list(v) for k, v in shapes.items()}))
+    zone_database_job(check, mirror, rb, pats)
     crate = MirCrate(mirror, "feel", overflow_checks=True)
     check.bounds += ["capture groups: every value the pattern text admits (2-digit fields 00..99, year 4..9 digits, optional groups both ways)",
                      "fraction of 1..%d digits (one obligation per digit count)" % (9 if tier == "quick" else 12),
